@@ -204,7 +204,7 @@ type Service struct {
 	workqueue      []*work                // Resource work queue.
 	workbuf        []*work                // Underlying buffer of the workqueue
 	workcond       sync.Cond              // Cond waited on by workers and signaled when work is added to workqueue
-	wg             sync.WaitGroup         // WaitGroup for all workers
+	wg             *sync.WaitGroup        // WaitGroup for all workers of the current serve cycle
 	mu             sync.Mutex             // Mutex to protect rwork map
 	logger         logger.Logger          // Logger
 	queueGroup     string                 // Queue group to use with CharQueueSubscribe
@@ -674,12 +674,16 @@ func (s *Service) serve(nc Conn) error {
 	s.workqueue = s.workbuf[:0]
 	s.rwork = make(map[string]*work, s.inChannelSize)
 	s.queryTQ = timerqueue.New(s.queryEventExpire, s.queryDuration)
+	// Each serve cycle has its own WaitGroup. When restarted, the previous
+	// Serve call may still be waiting on the WaitGroup of its cycle.
+	wg := new(sync.WaitGroup)
+	s.wg = wg
 	s.mu.Unlock()
 
 	// Start workers
-	s.wg.Add(s.workerCount)
+	wg.Add(s.workerCount)
 	for i := 0; i < s.workerCount; i++ {
-		go s.startWorker()
+		go s.startWorker(wg)
 	}
 	vhook("sv.init")
 
@@ -708,7 +712,7 @@ func (s *Service) serve(nc Conn) error {
 	close(workCh)
 
 	// Wait for all workers to be done
-	s.wg.Wait()
+	wg.Wait()
 	vhook("sv.waited")
 	return nil
 }
@@ -726,7 +730,10 @@ func (s *Service) Shutdown() error {
 	s.close()
 
 	// Wait for all workers to be done
-	s.wg.Wait()
+	s.mu.Lock()
+	wg := s.wg
+	s.mu.Unlock()
+	wg.Wait()
 	vhook("sd.waited")
 
 	s.mu.Lock()
